@@ -57,6 +57,7 @@ def shards(tier, seed):
     out = [("tables", i, b["k"], b["d"]) for i in range(len(PATTERNS))]
     out.append(("roundtrip",))
     out.append(("threads",))
+    out.append(("biglimit",))
     return out
 
 
@@ -186,6 +187,33 @@ def srepr(d):
     return "{" + ", ".join(out) + "}"
 
 
+def biglimit_family(r):
+    """The application lifts the interpreter's limit on integer conversion (sys.set_int_max_str_digits) after the library was
+    imported: {x:int} then denotes digit strings of any length, 5 000 digits included, and converts back."""
+    import sys
+    from baize.routing import CONVERTOR_TYPES
+    old = sys.get_int_max_str_digits()
+    sys.set_int_max_str_digits(0)
+    try:
+        for iface in ("wsgi", "asgi"):
+            for digits in ("9" * 4299, "9" * 4300, "1" + "0" * 4300, BIG, "0" * 4400 + "7"):
+                log = []
+                router = build_router(iface, ("/{x:int}", "/{x}"), log)
+                res = call(iface, router, "/" + digits)
+                r.count("evaluations")
+                r.count("distinct_nontrivial")
+                w = {"iface": iface, "table": ["/{x:int}", "/{x}"], "root": "", "path": f"/<{len(digits)} digits>", "biglimit": True, "full_path_len": len(digits) + 1}
+                want = int(digits)
+                if res.exc is not None or res.status != 200 or len(log) != 1 or log[0][0] != 0 or log[0][1] != {"x": want} or type(log[0][1].get("x")) is not int:
+                    r.violation("biglimit:int-route", w, f"{iface} Router('/{{x:int}}', '/{{x}}') on {len(digits)} digits with the conversion limit lifted: status {res.status}, exception {res.exc!r:.60}, route called {[x[0] for x in log]} (expected the int route with the number)")
+            text = CONVERTOR_TYPES["int"].to_string(int(BIG))
+            if text != BIG:
+                r.violation("biglimit:to_string", {"biglimit": True, "iface": "n/a", "table": [], "root": "", "path": "", "full_path_len": 0}, f"to_string of a 5000-digit int gives {len(text)} characters")
+    finally:
+        sys.set_int_max_str_digits(old)
+    r.sample({"biglimit": "sys.set_int_max_str_digits(0) after import", "digits": [4299, 4300, 4301, 5000]})
+
+
 def thread_family(r, tier):
     import os
     from ..core.runner import REPO
@@ -221,6 +249,9 @@ def run_shard(desc, tier):
     r = R()
     if desc[0] == "threads":
         thread_family(r, tier)
+        return r
+    if desc[0] == "biglimit":
+        biglimit_family(r)
         return r
     if desc[0] == "tables":
         _, first, k, d = desc
@@ -317,6 +348,9 @@ def replay(w):
     if "threads" in w:
         thread_family(r, "quick")
         return bool(r.viol), {"violations": sorted(r.viol), "texts": [v[2][:300] for v in r.viol.values()]}
+    if w.get("biglimit"):
+        biglimit_family(r)
+        return bool(r.viol), {"violations": sorted(r.viol)}
     if "type" in w:
         # re-run the whole small round-trip family; report only this one
         roundtrip(r)
